@@ -744,6 +744,10 @@ fn record(out_path: &str, n_int: usize, n_float: usize, cases_path: Option<&str>
             float_cases.push((op, a, b));
         }
     }
+    // (the zeros of both signs, a NaN and infinities are always among the assignment pairs)
+    for (a, b) in [(0.0f64, -0.0f64), (-0.0, 0.0), (f64::NAN, f64::NAN), (1.5, 1.5), (f64::INFINITY, f64::NEG_INFINITY), (-0.0, -0.0)] {
+        float_cases.push(("+", a.to_bits(), b.to_bits()));
+    }
     let mut ieee_checked = 0u64;
     for (i, (op, a, b)) in float_cases.iter().enumerate() {
         let (sa, sb) = (Sc::F(*a), Sc::F(*b));
@@ -768,6 +772,29 @@ fn record(out_path: &str, n_int: usize, n_float: usize, cases_path: Option<&str>
                     d["program"] = json!(r.program);
                     d["expected_cell"] = out_show(&Out::F(host));
                     d["got_cell"] = r.cell.as_ref().map(out_show).unwrap_or(json!(null));
+                    mm.push("ieee", d);
+                }
+            }
+        }
+        // plain assignment `c = b` on a cell holding a: stores b and yields b — bit for bit (the zeros of both signs,
+        // NaN payloads), also when b compares equal to the content
+        if *op == "+" {
+            let f = "(a: float, b: float) -> (float, float) { c := mut a; r := c = b; return (r, *c) }".to_string();
+            if let Ok(fun) = cache.function(&f, true) {
+                let got = match catch(|| fun.create_call(vec![sa.var(), sb.var()])) {
+                    Ok(Ok(code)) => match exec(&code) {
+                        Ok(Variable::Tuple(es)) if es.len() == 2 => Some((out_from_var(&es[0]), out_from_var(&es[1]))),
+                        _ => None,
+                    },
+                    _ => None,
+                };
+                ieee_checked += 1;
+                if got != Some((Out::F(*b), Out::F(*b))) {
+                    let mut d = case_json("float2", "=", sa, Some(sb));
+                    d["form"] = json!("plain_assign");
+                    d["program"] = json!(format!("{f} called with ({}, {})", sa.show(), sb.show()));
+                    d["expected"] = out_show(&Out::F(*b));
+                    d["got"] = json!(format!("{:?}", got.map(|(r, c)| (out_show(&r), out_show(&c)))));
                     mm.push("ieee", d);
                 }
             }
